@@ -100,11 +100,19 @@ def rule_names(ctx: Ctx) -> None:
     step = cb.args.args[2].arg
     entry = f"cfg['pipeline'][{step}]['indicator']"
     body = stmts_of(cb)
+    cd = Defs(cb)
+
+    def npath(t: ast.AST, at: ast.AST) -> str:
+        """canonical path of a store target with local aliases of configuration sub-dictionaries expanded"""
+        if isinstance(t, ast.Name):
+            return t.id
+        return canon(cd.expand(t, at, depth=3, stop=("cfg", step)))
+
     ifs = [s for s in body if isinstance(s, ast.If) and "split" in src(s.test)]
     ok = False
     if ifs and len(ifs[0].body) == 1 and isinstance(ifs[0].body[0], ast.Assign) and not ifs[0].orelse:
-        tgt = canon(ifs[0].body[0].targets[0])  # the configuration entry itself, or a local stored into it afterwards
-        init = [s for s in body if isinstance(s, ast.Assign) and canon(s.targets[0]) == tgt and s.lineno < ifs[0].lineno]
+        tgt = npath(ifs[0].body[0].targets[0], ifs[0].body[0])  # the configuration entry itself, or a local stored into it afterwards
+        init = [s for s in body if isinstance(s, ast.Assign) and npath(s.targets[0], s) == tgt and s.lineno < ifs[0].lineno]
         ok = (
             bool(init)
             and canon(init[-1].value) == "''"
@@ -112,7 +120,7 @@ def rule_names(ctx: Ctx) -> None:
             and canon(ifs[0].body[0].value) == canon(_e(f"'.' + {step}.split('.')[1]"))
         )
         if tgt != entry:
-            fin = [s for s in body if isinstance(s, ast.Assign) and canon(s.targets[0]) == entry and s.lineno > ifs[0].lineno]
+            fin = [s for s in body if isinstance(s, ast.Assign) and npath(s.targets[0], s) == entry and s.lineno > ifs[0].lineno]
             ok = ok and len(fin) == 1 and canon(fin[0].value) == tgt
     ctx.ob("C12.NAMES", SM, ifs[0] if ifs else cb, "cost_volume_confidence_run: indicator suffix '' or '.' + second part of the step name", ok, expected=f"'' ; if len({step}.split('.')) == 2: '.' + {step}.split('.')[1]", detail="several confidence steps are told apart by the suffix of their step name")
     k = rule_mirror(ctx, "C12.MIRROR", only=["cost_volume_confidence_run"])
@@ -204,6 +212,9 @@ def run(ctx: Ctx) -> None:
         check_function_effects(ctx, "C12.EFFECTS", key)
     n = rule_prange(ctx, "C12.PRANGE", files=[AMB, RSK, IB, IT])
     ctx.floor("C12.PRANGE", n, 5)
+    from ..rules_par import rule_ieee
+
+    ctx.floor("C12.IEEE", rule_ieee(ctx, "C12.IEEE", files=(AMB, RSK, IB, IT)), 4)
     rule_switch(ctx, "C12.SWITCH")
     rule_kernels(ctx)
     rule_regularise(ctx)
